@@ -11,6 +11,10 @@ int run_codec(std::istream& in, std::ostream& out);
 int run_heap(std::istream& in, std::ostream& out, int argc, char** argv);
 int run_xml(std::istream& in, std::ostream& out, int argc, char** argv);
 int run_acc(std::istream& in, std::ostream& out);
+int run_threads(std::istream& in, std::ostream& out, int argc, char** argv);
+int run_alias(std::ostream& out);
+std::string run_heap_case(const std::vector<std::string>& lines);
+std::vector<std::vector<std::string>> read_cases(std::istream& in);
 
 inline std::string from_hex(const std::string& h) {
   std::string s;
